@@ -161,6 +161,16 @@ def run_harness(unit_rs, harness, workdir, default_timeout=600, rss_cap=14 << 30
             res["reason"] = "no verdict from kani (rc=%s)" % rc
         return res, out
     failed = [c for c in checks if c["status"] == "FAILURE"]
+    # Checks located inside CBMC's own C models of libm (<builtin-library-sqrt> etc.: "NaN on
+    # division" inside the model of sqrt) are properties of the model, not obligations of the code
+    # under verification; they are dropped and counted (the libm result itself is then simply an
+    # arbitrary double as far as the proof is concerned).
+    lib_internal = [c for c in failed if c["loc"].startswith("<builtin-library-")]
+    if lib_internal:
+        failed = [c for c in failed if not c["loc"].startswith("<builtin-library-")]
+        res["ignored_cbmc_library_model_checks"] = len(lib_internal)
+        if not failed and verdict == "FAILED":
+            verdict = "SUCCESSFUL"
     undet = [c for c in checks if c["status"] == "UNDETERMINED"]
     unwind_fail = [c for c in failed if "unwinding assertion" in c["desc"]]
     res["failed"] = failed
